@@ -13,7 +13,7 @@ import sys
 
 VERIF = os.path.dirname(os.path.dirname(os.path.abspath(__file__)))
 EXTRA = {  # other checks worth running for a change seeded against a property
-    "C02a": ["C13"], "C02c": ["C17"], "C02f": ["C16"], "C01f": ["C16"], "C08f": ["C16"], "C03c": ["C16"], "C06d": ["C15"], "C05a": ["C06"], "C06b": ["C15"], "C15b": ["C09"], "C09b": ["C15"], "C20k": ["C15"],
+    "C02a": ["C13"], "C02c": ["C17"], "C02f": ["C16"], "C01f": ["C16"], "C08f": ["C16"], "C03c": ["C16"], "C06d": ["C15"], "C05a": ["C06"], "C06b": ["C15"], "C15b": ["C09"], "C09b": ["C15"], "C20k": ["C15"], "C12m": ["C01"],
 }
 HISTORY = {  # what had to be strengthened before the change was caught (filled from the campaign log)
     "C01a": "missed at first: no input held the same picture twice -> added stamp_twice / copy_block mutations",
@@ -64,6 +64,14 @@ HISTORY = {  # what had to be strengthened before the change was caught (filled 
     "C14k": "missed at first: picture part names always had lower-case extensions -> upper- and title-case extensions in ODF packages",
     "C14l": "missed at first: every generated JPEG had the same five segments and every XLSX picture an extent -> six segment layouts (payloads ending in 0xFF, clamped tables, progressive, restart interval, ICC/Exif) and two-cell anchors without extent (which also exposed the anchor-order defect fixed in the repository)",
     "C20k": "missed by C20 at first (single-threaded; caught by C15's AES stress group) -> C20 now runs four concurrent callers against pre-computed reference answers",
+    "C01m": "missed at first: no equation was nested deeper than a few levels -> a document with five equations nested 48 structures deep (delimiters, fractions, radicals, scripts, functions)",
+    "C01n": "missed at first: a worker that slept until the deadline was 'inconclusive' (only CPU time was a verdict) and no archive held bare .gz/.bz2/.xz members -> blocked-forever verdict (process asleep, no CPU, at the deadline; location from the watchdog's stack dump); archive with compressed-stream members",
+    "C03m": "missed at first: form-XObject pages still named the font in the page resources -> pages whose text and font live only in the form (a fifth of the clean picture-free pages, and the shared-content-stream feature)",
+    "C03n": "missed at first: accessors were only called with their defaults, once -> every boolean option of get_full_text / iterate_units (found by introspection) in the sequences default-set-default and set-default-set on one object: join equality per option value, same value same text; PPTX pictures carry alt text so that the option matters",
+    "C13m": "missed at first: empty XHTML cells were always <td></td> -> the short forms <td/> and <td /> an XML serialiser writes",
+    "C13n": "missed at first: no time-of-day cells -> cells with number format h:mm:ss and a serial in [0,1), claimed as HH:MM:SS",
+    "C14m": "missed at first: text never ended in an escaped backslash right before \\page -> a quarter of the page breaks follow 'C:\\temp\\' directly",
+    "C14n": "missed at first: ODF frames were always 2cm x 2cm and their pixel size unclaimed -> sizes in cm, in, mm, pt and pc (quarter inches, exact in every unit), claimed at 96 dpi",
 }
 # changes the quick tier missed when they arrived (rounds 4 to 6, from the campaign logs); what was widened is in DESIGN §19-§20
 MISSED_ON_ARRIVAL = set("""C01g C01h C02h C03g C04g C04h C05g C05h C08g C08h C09g C09h C10h C11g C12g C12h C13h C14g C14h C16g C16h C19g C07h C15g
